@@ -11,7 +11,7 @@ import traceback
 from . import corpus, render, runner, spec
 
 VERIF = corpus.VERIF
-EVIDENCE_DIR = os.path.join(VERIF, "evidence")
+EVIDENCE_DIR = os.environ.get("VERIF_EVIDENCE_DIR", os.path.join(VERIF, "evidence"))
 KNOWN = os.path.join(VERIF, "known_findings.json")
 
 
